@@ -128,7 +128,7 @@ class FeedbackParallelStep(ParallelStep):
                         evaluator,
                         representation,
                         random,
-                        population,
+                        iter(npopulation),
                         end - start,
                         generation,
                     ),
